@@ -4,6 +4,8 @@ import os
 import threading
 import time
 
+import pathlib
+
 from vf import core
 from vf.core import cbool, clist, cnat, ctup
 from vf.translate import core as T
@@ -409,11 +411,81 @@ def explore_real_pulls(ctx):
     ctx.sample({"real_pull_faults": "OperationalError at statement k = 1.. until the task completes, for 5 pull outcomes"})
 
 
+def explore_real_imports(ctx):
+    """an event-triggered import (watchdog: no request, requeue=True) through the real Worker.run with an OperationalError at its k-th
+    statement, for every k: the worker exits (to be replaced), the import is re-queued, and once the database is healthy the file is registered"""
+    import shutil
+
+    from alpenhorn.daemon import auto_import as AI
+    from alpenhorn.daemon import update as U
+    from alpenhorn.scheduler import pool
+    from vf.harness import world as w
+
+    base = ctx.tmp() / "imports"
+    for pre in ("none", "acq", "file"):
+        k, nstmt = 0, None
+        while nstmt is None or k <= nstmt:
+            shutil.rmtree(base, ignore_errors=True)
+            sdb = w.fresh_db(shared=True)
+            g = w.mkgroup("g")
+            node = w.mknode(base, "n", g, stype="F")
+            (pathlib.Path(node.root) / "acq1").mkdir()
+            (pathlib.Path(node.root) / "acq1" / "data.dat").write_bytes(b"payload")
+            if pre in ("acq", "file"):
+                a = w.mkacq("acq1")
+                if pre == "file":
+                    w.mkfile(a, "data.dat", b"payload")
+            queue = w.StepQueue.make()
+            un = U.UpdateableNode(queue, w.StorageNode.get(id=node.id))
+            AI.import_file(un, queue, pathlib.PurePath("acq1/data.dat"), True, None)
+            pool.global_abort.clear()
+            wk = pool.Worker(queue, 0)
+            got = {"n": 0}
+
+            class QP:
+                @staticmethod
+                def get(timeout=None, _got=got, _wk=wk):
+                    if _got["n"] >= 1:
+                        _wk._worker_stop.set()
+                        return None
+                    _got["n"] += 1
+                    return queue.get(timeout=0.001)
+
+                task_done = staticmethod(queue.task_done)
+
+            wk._queue = QP
+            with w.SqlFault(sdb, fail_at=(k or None)) as sf:
+                r = wk.run()
+            if nstmt is None:
+                nstmt = sf.n
+            aborted = pool.global_abort.is_set()
+            pool.global_abort.clear()
+            requeued = queue.qsize
+            # database healthy again: replacement workers take whatever is queued
+            exits, aborted2 = w.drain_with_workers(queue)
+            copies = [(c.has_file, c.wants_file) for c in w.ArchiveFileCopy.select()]
+            ctx.count("real-import-fault")
+            ctx.distinct_add(("import", pre, k))
+            rp = {"family": "real-import", "pre": pre, "fault_at_statement": k, "statements": nstmt}
+            if aborted or aborted2:
+                ctx.fail("C10:abort-real", f"event-triggered import with OperationalError at statement {k}: global_abort set", rp)
+            if k and k <= nstmt:
+                if r != 1:
+                    ctx.fail("C10:worker-not-replaced", f"event-triggered import: OperationalError at statement {k} of {nstmt}, but the worker did not exit (Worker.run returned {r}): it is never replaced", rp)
+                if requeued != 1:
+                    ctx.fail("C10:not-requeued", f"event-triggered import: OperationalError at statement {k} of {nstmt}: {requeued} task(s) in the queue afterwards, expected the re-queued import", rp)
+            if copies != [("Y", "Y")] or queue.inprogress_size or queue.qsize:
+                ctx.fail("C10:import-lost", f"event-triggered import with OperationalError at statement {k} of {nstmt}: after recovery the copies on the node are {copies} (expected one present copy); queued={queue.qsize} in progress={queue.inprogress_size}", rp)
+            k += 1
+    shutil.rmtree(base, ignore_errors=True)
+
+
 def explore(ctx):
     explore_scripts(ctx, 400 if ctx.quick() else 8000)
     explore_retry(ctx)
     explore_pool(ctx)
     explore_real_pulls(ctx)
+    explore_real_imports(ctx)
 
 
 def search(ctx):
